@@ -80,3 +80,39 @@ pub mod sync {
         }
     }
 }
+
+/// `once_cell::unsync::OnceCell`: NO synchronisation at all.  If the kernel is (wrongly) built on it
+/// while claiming `Sync`, loom sees the unsynchronised accesses through its tracked `UnsafeCell`
+/// (and the harness sees several initialisers run).
+pub mod unsync {
+    use loom::cell::UnsafeCell;
+
+    pub struct OnceCell<T> {
+        value: UnsafeCell<Option<T>>,
+    }
+    impl<T> OnceCell<T> {
+        pub fn new() -> Self {
+            Self { value: UnsafeCell::new(None) }
+        }
+        pub fn with_value(v: T) -> Self {
+            Self { value: UnsafeCell::new(Some(v)) }
+        }
+        pub fn get(&self) -> Option<&T> {
+            self.value.with(|p| unsafe { (*p).as_ref() })
+        }
+        pub fn get_mut(&mut self) -> Option<&mut T> {
+            self.value.with_mut(|p| unsafe { (*p).as_mut() })
+        }
+        pub fn get_or_try_init<E>(&self, f: impl FnOnce() -> Result<T, E>) -> Result<&T, E> {
+            if let Some(v) = self.get() {
+                return Ok(v);
+            }
+            let v = f()?;
+            self.value.with_mut(|p| unsafe {
+                assert!((*p).is_none(), "reentrant init");
+                *p = Some(v);
+            });
+            Ok(self.get().unwrap())
+        }
+    }
+}
